@@ -305,3 +305,59 @@ func verifBytesEqual(a, b []byte) bool {
 	}
 	return eq
 }
+
+// C08 / C03 / C09 / C12 — the datagram record layer before the handshake has completed (epoch 0, no cipher):
+// one arbitrary datagram holding up to two records whose length fields are attacker-chosen (consistent, short
+// or lying by up to 14 bytes): no panic, no application data accepted, a ChangeCipherSpec takes effect only
+// when expected and well formed, errors are latched.
+//
+//verif:harness props=C08,C03,C09,C12 paths=200000 reach=accepted,ccs,error
+func VerifHarness_C08_dtlcp_record_prehandshake() {
+	l1 := verifSplitInt("reclen1", 0, 3)
+	d := verifNondetBytes("rec1", 13+l1)
+	d[11], d[12] = 0, byte(l1)
+	if verifSplitInt("secondRecord", 0, 1) == 1 {
+		l2 := verifSplitInt("reclen2", 0, 2)
+		r2 := verifNondetBytes("rec2", 13+l2)
+		r2[11], r2[12] = 0, byte(l2)
+		d = append(d, r2...)
+	}
+	// the first record's length field: honest, or lying by 1, by a record header, by one more, or absurdly
+	d[12] = byte([]int{l1, l1 + 1, l1 + 13, l1 + 14, 255}[verifSplitInt("claimedLen", 0, 4)])
+	// the datagram arrives whole, one byte short, cut inside the header, or empty
+	switch verifSplitInt("cut", 0, 3) {
+	case 1:
+		d = d[:len(d)-1]
+	case 2:
+		d = d[:12]
+	case 3:
+		d = d[:0]
+	}
+	// epoch of the first record: 0 (current) or 1 (ahead)
+	if len(d) >= 5 {
+		d[3], d[4] = 0, byte(verifSplitInt("epoch", 0, 1))
+	}
+	t := &verifPConn{in: [][]byte{d}}
+	c := &Conn{pconn: t, remoteAddr: verifAddr{}, config: &Config{Rand: verifRandSrc{}}}
+	c.vers = VersionTLCP
+	c.haveVers = verifSplitInt("haveVers", 0, 1) == 1
+	c.replayWindow = newReplayWindow(64)
+	expectCCS := verifSplitInt("expectCCS", 0, 1) == 1
+	if expectCCS {
+		c.in.nextCipher = &verifCBC{}
+		c.in.nextMac = &verifMAC{}
+	}
+	err := c.readRecordOrCCS(expectCCS)
+	if err == nil {
+		verifReach("accepted")
+		verifAssert("C12.early.dtlcpNoAppDataBeforeHandshake", len(c.readBuf) == 0)
+		if c.in.cipher != nil {
+			verifReach("ccs")
+			verifAssert("C03.ccs.dtlcpOnlyWhenExpected", expectCCS)
+		}
+	} else {
+		verifReach("error")
+		verifAssert("C12.early.dtlcpNothingDelivered", len(c.readBuf) == 0)
+	}
+	verifAssert("C08.record.dtlcpNoCipherWithoutExpectedCCS", expectCCS || c.in.cipher == nil)
+}
